@@ -409,10 +409,16 @@ def air_cov(ctx, st):
 
 
 def prog_C12(ctx):
-    generic(ctx, ['Dc4bcVerif.Props.C12', 'Dc4bcVerif.Props.C12Process', 'Dc4bcVerif.Props.C12Air', 'Dc4bcVerif.Props.C12Seed', 'Dc4bcVerif.Props.C18Air'], 'airdiff', 'air', ['C12'], AIR_TRUSTED +
+    res = generic(ctx, ['Dc4bcVerif.Props.C12', 'Dc4bcVerif.Props.C12Process', 'Dc4bcVerif.Props.C12Air', 'Dc4bcVerif.Props.C12Seed', 'Dc4bcVerif.Props.C18Air'], 'airdiff', 'air', ['C12'], AIR_TRUSTED +
             ['translator: every write to and every use of the airgapped machine\'s in-memory base seed, and what dkg.InitDKGInstance does with the slice it is handed (Gen/SeedFacts.lean), regenerated on every run; frand.NewCustom / sha256 / the suite constructor not writing their argument is trusted and exercised by the second-ceremony restarts'],
             'ceremonies (3,2),(2,2) [thorough: +(4,3),(3,3)]; per ceremony one participant: restart before every operation, and (sampled in quick, all in thorough) kill-before-log and kill-after-log at every operation, plus one run restarting after every step; two clones fed the same operations; then a SECOND ceremony of the same participants handled by the same process: the same restart points inside it (sampled in quick), and a machine fed the second ceremony alone',
             cov_from_stats=air_cov)
+    # the concrete handlers: every key-generation operation of the ceremonies, and a machine stopped, opened again and replayed
+    # after every operation, against Model/AirDkg.lean (`stop` + the logged operations again); Props/C12Air.lean
+    airdkg_part(ctx, res)
+    if res is not None and 'airgapped_dkg_handlers' in ctx.cov:
+        st = res['stats'].get('AirDkg') or {}
+        ctx.cov['airgapped_dkg_handlers'].update(restarts=st.get('Restarts'), replayed_operations=st.get('Replayed'))
 
 
 def prog_C20(ctx):
